@@ -414,6 +414,6 @@ def lemmas(tier):
               doc={"S": ["tail"], "F": ["16 objects x protocols 0-5 x delivery kind (quick: one kind per (object, protocol), rotating), pickled by the stock pickler; stock unpickler's stop position delimits the first pickle"],
                    "bound": "listed objects"}),
     ]
-    L.append(Lemma("raw_two", raw_two, timeout=60 if q else 1800, dry=[{"a": 0x4b, "b": 5, "tail": b""}, {"a": 0x2e, "b": 0x2e, "tail": b"."}],
+    L.append(Lemma("raw_two", raw_two, timeout=60 if q else 600, dry=[{"a": 0x4b, "b": 5, "tail": b""}, {"a": 0x2e, "b": 0x2e, "tail": b"."}],
                    doc={"S": ["a, b: two fully arbitrary leading bytes (symbolic opcode and argument)", "tail"], "bound": "2 raw bytes + STOP; a solver search, exhaustion not expected in quick"}))
     return L
